@@ -21,7 +21,7 @@ Definition w_enabled_option_missing_file_header : case :=
 Definition w_whole_config_fallback_collection_pipeline : case :=
   {| c_proj := {| p_yaml := (Doc [("min_continues", VInt (3)%Z)]); p_json := Absent; p_pyproject := Absent; p_dash := None; p_ignore_file := []; p_subdir := false |}; c_cmd := "pipeline"; c_unit := "collection-pipeline"; c_lang := "python"; c_fname := "case_src.py"; c_overrides := []; c_metrics := [("continues", (1)%Z)] |}.
 Definition w_language_override_ignored_dry : case :=
-  {| c_proj := {| p_yaml := (Doc [("dry", VMap [("enabled", VBool true); ("python", VMap [("min_duplicate_lines", VInt (6)%Z)])])]); p_json := Absent; p_pyproject := Absent; p_dash := None; p_ignore_file := []; p_subdir := false |}; c_cmd := "dry"; c_unit := "dry"; c_lang := "python"; c_fname := "case_src.py"; c_overrides := []; c_metrics := [("dup_lines", (4)%Z)] |}.
+  {| c_proj := {| p_yaml := (Doc [("dry", VMap [("enabled", VBool true); ("python", VMap [("min_duplicate_lines", VInt (6)%Z)])])]); p_json := Absent; p_pyproject := Absent; p_dash := None; p_ignore_file := []; p_subdir := false |}; c_cmd := "dry"; c_unit := "dry"; c_lang := "python"; c_fname := "case_src.py"; c_overrides := []; c_metrics := [("dup_lines", (4)%Z); ("occurrences", (2)%Z)] |}.
 Definition w_cli_override_skips_language_sections_nesting : case :=
   {| c_proj := {| p_yaml := (Doc [("nesting", VMap [("rust", VMap [("max_nesting_depth", VInt (1)%Z)])])]); p_json := Absent; p_pyproject := Absent; p_dash := None; p_ignore_file := []; p_subdir := false |}; c_cmd := "nesting"; c_unit := "nesting"; c_lang := "rust"; c_fname := "case_src.rs"; c_overrides := [("--max-depth", (9)%Z)]; c_metrics := [("depth", (3)%Z)] |}.
 Definition w_cli_override_skips_language_sections_srp : case :=
@@ -35,7 +35,7 @@ Definition w_repo_ignore_not_loaded_dash_config : case :=
 Definition w_global_config_option_ignored : case :=
   {| c_proj := {| p_yaml := Absent; p_json := Absent; p_pyproject := Absent; p_dash := (Some {| d_pos := PosGlobal; d_suffix := ".yaml"; d_file := (Doc [("nesting", VMap [("enabled", VBool false)])]) |}); p_ignore_file := []; p_subdir := false |}; c_cmd := "nesting"; c_unit := "nesting"; c_lang := "python"; c_fname := "case_src.py"; c_overrides := []; c_metrics := [("depth", (6)%Z)] |}.
 Definition w_dry_config_option_merges_section_only : case :=
-  {| c_proj := {| p_yaml := (Doc [("dry", VMap [("enabled", VBool true)])]); p_json := Absent; p_pyproject := Absent; p_dash := (Some {| d_pos := PosCmd; d_suffix := ".yaml"; d_file := (Doc [("nesting", VMap [("max_nesting_depth", VInt (3)%Z)])]) |}); p_ignore_file := []; p_subdir := false |}; c_cmd := "dry"; c_unit := "dry"; c_lang := "python"; c_fname := "case_src.py"; c_overrides := []; c_metrics := [("dup_lines", (4)%Z)] |}.
+  {| c_proj := {| p_yaml := (Doc [("dry", VMap [("enabled", VBool true)])]); p_json := Absent; p_pyproject := Absent; p_dash := (Some {| d_pos := PosCmd; d_suffix := ".yaml"; d_file := (Doc [("nesting", VMap [("max_nesting_depth", VInt (3)%Z)])]) |}); p_ignore_file := []; p_subdir := false |}; c_cmd := "dry"; c_unit := "dry"; c_lang := "python"; c_fname := "case_src.py"; c_overrides := []; c_metrics := [("dup_lines", (4)%Z); ("occurrences", (2)%Z)] |}.
 Definition w_pyproject_unparsable_swallowed : case :=
   {| c_proj := {| p_yaml := Absent; p_json := Absent; p_pyproject := Unparsable; p_dash := None; p_ignore_file := []; p_subdir := false |}; c_cmd := "nesting"; c_unit := "nesting"; c_lang := "python"; c_fname := "case_src.py"; c_overrides := []; c_metrics := [("depth", (6)%Z)] |}.
 Definition w_wrong_type_swallowed : case :=
@@ -117,3 +117,27 @@ Definition w_thailint_json_is_not_a_root_marker : case :=
 
 Theorem C05_thailint_json_is_not_a_root_marker_refuted : run config_actual w_thailint_json_is_not_a_root_marker <> spec w_thailint_json_is_not_a_root_marker /\ run ideal w_thailint_json_is_not_a_root_marker = spec w_thailint_json_is_not_a_root_marker.
 Proof. vm_compute. split; [discriminate|reflexivity]. Qed.
+
+(* phase 3: values of a dry language block bypass validation; non-mappings where a mapping is expected *)
+Definition w_language_block_value_not_validated_dry : case :=
+  {| c_proj := {| p_yaml := (Doc [("dry", VMap [("enabled", VBool true); ("python", VMap [("min_occurrences", VInt (0)%Z)])])]); p_json := Absent; p_pyproject := Absent; p_dash := None; p_ignore_file := []; p_subdir := false |}; c_cmd := "dry"; c_unit := "dry"; c_lang := "python"; c_fname := "case_src.py"; c_overrides := []; c_metrics := [("dup_lines", (4)%Z); ("occurrences", (2)%Z)] |}.
+Definition w_non_mapping_section_crashes_collection_pipeline : case :=
+  {| c_proj := {| p_yaml := Absent; p_json := (Doc [("collection-pipeline", VInt (5)%Z)]); p_pyproject := Absent; p_dash := None; p_ignore_file := []; p_subdir := false |}; c_cmd := "pipeline"; c_unit := "collection-pipeline"; c_lang := "python"; c_fname := "case_src.py"; c_overrides := []; c_metrics := [("continues", (2)%Z)] |}.
+Definition w_non_mapping_language_block_crashes : case :=
+  {| c_proj := {| p_yaml := (Doc [("nesting", VMap [("python", VInt (5)%Z)])]); p_json := Absent; p_pyproject := Absent; p_dash := None; p_ignore_file := []; p_subdir := false |}; c_cmd := "nesting"; c_unit := "nesting"; c_lang := "python"; c_fname := "case_src.py"; c_overrides := []; c_metrics := [("depth", (6)%Z)] |}.
+
+Theorem C05_language_block_value_not_validated_dry_refuted : run config_actual w_language_block_value_not_validated_dry <> spec w_language_block_value_not_validated_dry /\ run ideal w_language_block_value_not_validated_dry = spec w_language_block_value_not_validated_dry.
+Proof. vm_compute. split; [discriminate|reflexivity]. Qed.
+
+Theorem C05_non_mapping_section_crashes_collection_pipeline_refuted : run config_actual w_non_mapping_section_crashes_collection_pipeline <> spec w_non_mapping_section_crashes_collection_pipeline /\ run ideal w_non_mapping_section_crashes_collection_pipeline = spec w_non_mapping_section_crashes_collection_pipeline.
+Proof. vm_compute. split; [discriminate|reflexivity]. Qed.
+
+Theorem C05_non_mapping_language_block_crashes_refuted : run config_actual w_non_mapping_language_block_crashes <> spec w_non_mapping_language_block_crashes /\ run ideal w_non_mapping_language_block_crashes = spec w_non_mapping_language_block_crashes.
+Proof. vm_compute. split; [discriminate|reflexivity]. Qed.
+
+(* the outcomes themselves: the invalid block value is used (a report instead of exit 2); the crashes report nothing *)
+Example C05_phase3_witness_outcomes :
+  run config_actual w_language_block_value_not_validated_dry = Ran 1 /\ spec w_language_block_value_not_validated_dry = Exit2
+  /\ run config_actual w_non_mapping_section_crashes_collection_pipeline = Ran 0 /\ spec w_non_mapping_section_crashes_collection_pipeline = Ran 1
+  /\ run config_actual w_non_mapping_language_block_crashes = Ran 0 /\ spec w_non_mapping_language_block_crashes = Ran 1.
+Proof. vm_compute. repeat split; reflexivity. Qed.
